@@ -61,6 +61,14 @@ def gen(tier):
                                 scs.append({"flavor": fl, "mode": mode,
                                             "server": {"starttls_offered": offered, "starttls_reply": reply, "cert": cert, "implicit_tls": mode == "wrapper", "caps_before": cb, "caps_after": ca},
                                             "client": {"add_root": root, "accept_invalid_certs": aic, "accept_invalid_hostnames": aih, "creds": creds}})
+    # the added roots belong to the configuration they were added to: an unrelated root, alone, makes nothing trusted - also when an
+    # otherwise identical configuration with the right root was built earlier in the same process
+    for fl in ("sync", "tokio"):
+        for mode in ("required", "wrapper", "opportunistic"):
+            for hist in (False, True):
+                scs.append({"flavor": fl, "mode": mode,
+                            "server": {"starttls_offered": True, "starttls_reply": "ok", "cert": "good", "implicit_tls": mode == "wrapper", "caps_before": ["AUTH PLAIN"], "caps_after": ["AUTH PLAIN"]},
+                            "client": {"add_root": False, "add_other_root": True, "history_root": hist, "accept_invalid_certs": False, "accept_invalid_hostnames": False, "creds": True}})
     # the EHLO repeated inside TLS answered without a server name (which the client cannot interpret) or with blanks only: whatever was
     # learned in clear must not survive - the connection has to fail, not go on with the old capabilities
     for fl in ("sync", "tokio"):
